@@ -123,8 +123,9 @@ Print Assumptions C06_validate_initialized_sound.
    the frame's requiredMask is the recursive loop's list of required numbers seen, a map-entry
    frame's bit 2 is its value-seen flag), and the step count n + 2|rest| <= 2|b| + 1 per frame
    that justifies the fuel of the Go-shaped loop.
-   The hypothesis [dt_schema_wf] (every message/group-typed field names an existing table; true of
-   every table the harness builds from a descriptor) is needed by the MODEL only: on a dangling
+   The hypothesis [dt_schema_wf] (every message/group-typed field names an existing table; its
+   boolean form [dt_schema_wfb] is evaluated on every schema of every `val` case of the run,
+   ocaml/fam_dectot.ml, and a table that fails it fails the case) is needed by the MODEL only: on a dangling
    index the recursive form fails ([nth_error]) while the machine reads an empty table ([nth]);
    [C06_validate_stack_eq_recursive_needs_wf] is that witness.  The quirk flag (FWB4) is an
    output of the recursive form only; the machine has no such output. *)
